@@ -883,6 +883,15 @@ class RequestHandler(BaseProtocol, Generic[_Request]):
                 # This shouldn't be possible. If a future refactor results in this
                 # failing, then the code may need to be updated to set the waiter.
                 assert self._waiter is None
+        elif (
+            not self._upgraded
+            and not self._messages
+            and self._payload_parser is None
+            and self._parser is not None
+        ):
+            # Declined while the body of the upgrade request is still
+            # outstanding: the deferred upgrade must not fire behind it.
+            self._parser.set_upgraded(False)
         try:
             prepare_meth = resp.prepare
         except AttributeError:
